@@ -85,7 +85,13 @@ func setup() *world {
 	}
 	w := &world{f: f, chain: avstypes.ChainIDWithoutRevision(f.Ctx.ChainID()), epoch: 5}
 	w.putEpoch()
-	f.Dogfood.SetParams(f.Ctx, dogfoodtypes.Params{EpochsUntilUnbonded: uint32(unbondingEpochs), EpochIdentifier: verifenv.EpochDay, MaxValidators: 3, HistoricalEntries: 0, MinSelfDelegation: sdkmath.ZeroInt()})
+	params := dogfoodtypes.Params{EpochsUntilUnbonded: uint32(unbondingEpochs), EpochIdentifier: verifenv.EpochDay, MaxValidators: 3, HistoricalEntries: 0, MinSelfDelegation: sdkmath.ZeroInt()}
+	if verifrt.Param("valid_params", 0) == 1 {
+		// parameters that pass genesis validation (needed by the restart harness of C18)
+		params.HistoricalEntries = 1
+		params.AssetIDs = []string{verifenv.LSTAssetID()}
+	}
+	f.Dogfood.SetParams(f.Ctx, params)
 	f.Env.RegisterAsset(verifenv.LSTAddrHex, 6, sdkmath.NewInt(1000))
 	f.Oracle.Prices[verifenv.LSTAssetID()] = oracletypes.Price{Value: sdkmath.NewInt(1), Decimal: 0}
 	addr, err := f.AVS.RegisterAVSWithChainID(f.Ctx, &avstypes.AVSRegisterOrDeregisterParams{
@@ -257,7 +263,7 @@ func (w *world) step(t int) {
 	case 5:
 		// an undelegation from operator o starts: the delegation module tells dogfood (inside the
 		// transaction: a failure or panic rolls the transaction back)
-		r := &heldRec{key: []byte{0xd0, byte(t), 1, 2, 3, 4, 5, 6}}
+		r := &heldRec{key: delegationtypes.GetUndelegationRecordKey(50, uint64(t+1), verifenv.TxHashes[0], verifenv.OperatorBech[o])}
 		cctx, write := f.Ctx.CacheContext()
 		var err error
 		panicked := verifrt.Try(func() {
